@@ -1016,6 +1016,10 @@ func (s *Store[K, V]) insertSimple(entry *Entry[K, V]) {
 	// wheel as well instead of staying behind as an entry nobody can find
 	if old, ok := s.shards[index].get(entry.key); ok && old != entry {
 		old.flag.SetRemoved(true)
+		// events of the replaced entry that are still queued (its own insert event
+		// included, which would otherwise clear the removed flag and list an entry
+		// that is no longer in the map) are to be ignored, as after a Delete
+		old.flag.SetDeleted(true)
 		if old.meta.prev != nil {
 			s.policy.Remove(old, false)
 		}
